@@ -137,19 +137,23 @@ def pcr (prepare : Out) (commit rb : Opt) (c : Cancel) : Result :=
 /-- a step body: sees its context kind, transforms the world `σ`, returns nil (`true`) or an error -/
 abbrev Body (σ : Type) := Ctx → σ → Bool × σ
 
-/-- `utils.Txn` over arbitrary bodies (`true` = returned nil).  Returns the world and which error
-is returned. -/
-def txnM {σ : Type} (cond : Body σ) (thn : Option (Body σ)) (rb : Option (Bool → Body σ)) (s : σ) : Ret × σ :=
+/-- one invocation of a body: which step, with which context, with which `failureByCond` flag -/
+abbrev Inv := Step × Ctx × Option Bool
+
+/-- `utils.Txn` over arbitrary bodies (`true` = returned nil).  Returns which error is returned, the
+invocations made (in order) and the final world. -/
+def txnM {σ : Type} (cond : Body σ) (thn : Option (Body σ)) (rb : Option (Bool → Body σ)) (s : σ) : Ret × List Inv × σ :=
   let (condOk, s1) := cond .txn s
   let thenCtx : Ctx := if rb.isNone then .inherit else .txn
-  let (thenFailed, s2) : Bool × σ :=
+  let (thenFailed, tr2, s2) : Bool × List Inv × σ :=
     match condOk, thn with
-    | true, some f => let (ok, s') := f thenCtx s1; (!ok, s')
-    | _, _ => (false, s1)
+    | true, some f => let (ok, s') := f thenCtx s1; (!ok, [(.thn, thenCtx, none)], s')
+    | _, _ => (false, [], s1)
   let ret : Ret := if !condOk then .condErr else if thenFailed then .thenErr else .nil
-  if ret = .nil then (ret, s2) else
+  let tr := (Step.cond, Ctx.txn, none) :: tr2
+  if ret = .nil then (ret, tr, s2) else
   match rb with
-  | none => (ret, s2)
-  | some f => (ret, (f (!condOk) .inherit s2).2)
+  | none => (ret, tr, s2)
+  | some f => (ret, tr ++ [(.rollback, .inherit, some (!condOk))], (f (!condOk) .inherit s2).2)
 
 end Eru.Txn
